@@ -1,7 +1,7 @@
 (* C12 — induction principle over schemas, the counted decode loop, and list-level forms of the
    nested fixpoints of Model.v (convertible with them: every *_eq lemma is by reflexivity). *)
 From Coq Require Import List ZArith Bool Lia.
-From TskVerif Require Import Base.Common C12.Model C12.BytesProofs.
+From TskVerif Require Import Base.Common Gen.Generated C12.Model C12.BytesProofs.
 Import ListNotations.
 Open Scope Z_scope.
 
@@ -86,7 +86,10 @@ Definition encode_fields (E : schema -> value -> eres (list Z)) (kv : list (key 
     | (k, m, sub) :: r =>
         let dflt := match p_default m with Some d => E sub d | None => EErr EKey end in
         ebind (match lookup k kv with
-               | Some x => match E sub x with EErr EKey => dflt | r => r end
+               | Some x => match E sub x with
+                           | EErr EKey => if c12_encode_swallows_nested_keyerror then dflt else EErr EKey
+                           | r => r
+                           end
                | None => dflt
                end)
           (fun bs => ebind (go r) (fun rs => EOk (bs ++ rs)))
